@@ -1160,6 +1160,17 @@ M('C13', '_canonicalize: final test chained with elif (round-4 seed b)', 'tenpy/
   "        if norm_err > norm_tol_final:\n            self._resume_psi = self.psi.copy()", "        elif norm_err > norm_tol_final:\n            self._resume_psi = self.psi.copy()",
   'HOOKS-final-canonical')
 
+M('C17', 'load_reduce applies the slot state only under a non-empty dict state (round-4 seed a)', HIO,
+  """                    if slotstate:
+                        for k, v in slotstate.items():
+                            setattr(obj, k, v)""", """                        if slotstate:
+                            for k, v in slotstate.items():
+                                setattr(obj, k, v)""", 'HDF5-reduce')
+M('C17', "LegCharge.from_hdf5 (compact) reads bunched from the key 'sorted' (round-4 seed b)", CH,
+  "            obj.bunched = hdf5_loader.get_attr(h5gr, 'bunched')\n            blockcharges = hdf5_loader.load(subpath + 'blockcharges')",
+  "            obj.bunched = hdf5_loader.get_attr(h5gr, 'sorted')\n            blockcharges = hdf5_loader.load(subpath + 'blockcharges')",
+  'HDF5-field')
+
 # ---------------------------------------------------------------- C16 / C19
 M('C16', 'GMRES restart: relative residual norm used for normalisation (round-3 seed b)', KRY,
   """        self.total_error.append([npc.norm(self.rs[-1]) / self.b_norm])
